@@ -36,6 +36,50 @@ def run(chk: Check, proj: Project) -> None:
     s4(chk, proj, w)
     s5(chk, proj, w, m)
     s6(chk, proj, w, m)
+    s7(chk, proj, w, m)
+
+
+_FIXTURE_DUP = "def f(s):\n    return s.tag_formatter or s.tag_formatter\n"
+
+
+def duplicate_operands(tree: ast.AST) -> List[ast.BoolOp]:
+    return [b for b in ast.walk(tree) if isinstance(b, ast.BoolOp) and len({norm(v) for v in b.values}) < len(b.values)]
+
+
+def s7(chk: Check, proj: Project, w, m) -> None:
+    chk.rule("S7", "the protected list stored on a Library is a private copy (never the caller's list or the module default); the tag-name pattern accepts every character the documentation allows (hyphen included); no `x or x` where the second operand was meant to be the deprecated alias")
+    lm = proj.mod("library")
+    f = lm.func("mark_protected_tags")
+    st = [x for x in stmts(f) if isinstance(x, ast.Assign) and any(isinstance(t, ast.Attribute) and t.attr == "_protected_tags" for t in x.targets)]
+    if len(st) != 1:
+        chk.undecided("S7", "library:mark_protected_tags:private-copy", lm.loc(f), f"{len(st)} stores of _protected_tags")
+    else:
+        v = st[0].value
+        fresh = (isinstance(v, (ast.List, ast.Tuple, ast.Set)) and all(isinstance(e, (ast.Starred, ast.Constant)) for e in v.elts)) or (isinstance(v, ast.Call) and (norm(v.func) in ("list", "tuple", "set", "frozenset", "sorted") or (isinstance(v.func, ast.Attribute) and v.func.attr == "copy")))
+        chk.ob("S7", "library:mark_protected_tags:private-copy", lm.loc(st[0]), fresh,
+               f"`{short(st[0])}` stores a new container" if fresh else
+               f"`{short(st[0])}` stores the caller's (or the module's default) list itself: a caller that later clears / refills the list it passed in changes what an already configured Library protects - a built-in tag can then be overwritten, or an unprotected name raises TagProtectedError")
+    # tag characters
+    tm = proj.mod("tag_formatter")
+    from ..regexlang import Lang, Seg
+    from .markers import compiled_regex
+
+    try:
+        pat, fl, node = compiled_regex(proj, "tag_formatter", "TAG_RE")
+        lang = Lang(pat, fl)
+        alpha = set("abcXYZ019_") | set("-:@.#/")
+        ok, wit = lang.accepts_all([Seg.field(alpha, 1, None)])
+        chk.ob("S7", "tag_formatter:TAG_RE:accepts-documented-characters", tm.loc(node), ok,
+               "TAG_RE accepts every non-empty string over word characters and - : @ . # /" if ok else
+               f"TAG_RE rejects {wit!r}: a component registered under such a name with the shorthand formatter raises ValueError instead of getting its tag (inside a character class `.-:` is a RANGE, which drops the hyphen)")
+    except AnalysisError as e:
+        chk.undecided("S7", "tag_formatter:TAG_RE:accepts-documented-characters", tm.loc(tm.tree), str(e))
+    if len(duplicate_operands(ast.parse(_FIXTURE_DUP))) != 1:
+        raise AnalysisError("duplicate-operand lint lost its positive fixture")
+    dups = [(mm, b) for mm in (m, proj.mod("app_settings"), lm, tm) for b in duplicate_operands(mm.tree)]
+    chk.ob("S7", "registry-modules:no-duplicate-boolean-operands", dups[0][0].loc(dups[0][1]) if dups else m.loc(m.tree), not dups,
+           "no `x or x` / `x and x` in the registry, settings, library and formatter modules" if not dups else
+           f"`{short(dups[0][1])}` has the same operand twice: the deprecated upper-case alias (RegistrySettings(TAG_FORMATTER=...)) is never read, the registry silently falls back to the global formatter and its tags no longer match its contents")
 
 
 def s6(chk: Check, proj: Project, w, m) -> None:
